@@ -234,7 +234,7 @@ func (s *StructType) IsValidExpression(exp Exp, pipeline *Pipeline, ast *Ast) er
 			}
 		}
 		if len(exp.Value) > len(s.Members) {
-			for key := range exp.Value {
+			for _, key := range exp.sortedKeys() {
 				if om := s.getMember(key); om == nil {
 					errs = append(errs, &IncompatibleTypeError{
 						Message: "unexpected field " + key,
